@@ -74,7 +74,8 @@ def check(ctx):
     ok3 = ret[0] == "sub" and ret[2] == comp_attr
     ctx.ob("C16.R1.prepared", f"{pd_.qualname}|prepare_data returns df[self.complete_features]", ok3, pd_.where(),
            "the prepared matrix has the complete feature columns" if ok3 else f"returns columns {ir.show(ret[2], maxdepth=2) if ret[0] == 'sub' else ret[0]}")
-    sorted_both = all(t is not None and t[0] == "call" and t[1] == _A("_sort_features") for t in (comp_attr, act_attr))
+    _is_sort = lambda f_: f_ == _A("_sort_features") or (f_[0] == "global" and f_[1].endswith(":_sort_features"))  # noqa: E731  (method or module function)
+    sorted_both = all(t is not None and t[0] == "call" and _is_sort(t[1]) for t in (comp_attr, act_attr))
     ctx.ob("C16.R1.sorted", f"{pd_.qualname}|both lists ordered by _sort_features", sorted_both, pd_.where(),
            "complete and active feature lists are both passed through _sort_features" if sorted_both else "a feature list is not ordered by _sort_features")
     if sorted_both:
